@@ -288,3 +288,9 @@ mod tests {
         assert_eq!(b64("foobar"), "Zm9vYmFy");
     }
 }
+
+#[cfg(kani)]
+mod verif_kani {
+    use super::*;
+    include!(concat!(env!("RG_VERIF_KANI_DIR"), "/printer/jsont.rs"));
+}
